@@ -3,7 +3,7 @@
     Executable model of pgcat's statistics registries and of the call sites that feed them.
     Definitions only; lemmas are in Proofs.v, the property theorems in Props.v.
 
-    Code modelled (read line by line, /repo at the checked tree):
+    Code modelled (read line by line; line numbers as of /repo commit dae4e52):
 
     src/stats.rs:26-32      [CLIENT_STATS], [SERVER_STATS] : id (random i32) -> Arc<..Stats>      = [creg], [sreg]
     src/stats.rs:52-59      [client_register]: already present => warn and IGNORE, else insert     = [reg_add]
@@ -19,37 +19,37 @@
                             server registry, bucketed by (pool_name, username)                    = [show_pools]
     src/admin.rs:149-248    [show_lists]: free/used clients = registry rows Idle/Active, same for servers = [show_lists]
     src/admin.rs:635-686    [show_stats]: one row per address from [address.stats]                  = [at]
-    src/client.rs:756-762   startup OK => [ClientStats::new(process_id, ..)], nothing registered yet = [Login c p true]
+    src/client.rs:771-777   startup OK => [ClientStats::new(process_id, ..)], nothing registered yet = [Login c p true]
                             (wrong password, unknown pool, pool down: [startup] returns Err, no ClientStats)
                                                                                                     = [Login c p false]
-    src/client.rs:864       [self.stats.register(..)] first thing in [handle()]                     = [HandleStart]
-    src/client.rs:1071      [self.stats.waiting()], src/pool.rs:772 again inside [pool.get]         = [CheckoutStart]
-    src/pool.rs:801-810     bb8 [get] fails for a candidate: [ban(FailedCheckout)] (replica only: [ban_error],
+    src/client.rs:879       [self.stats.register(..)] first thing in [handle()]                     = [HandleStart]
+    src/client.rs:1086      [self.stats.waiting()], src/pool.rs:781 again inside [pool.get]         = [CheckoutStart]
+    src/pool.rs:810-819     bb8 [get] fails for a candidate: [ban(FailedCheckout)] (replica only: [ban_error],
                             [address.stats.error()]), [address.stats.error()], [checkout_error()] (=> Idle),
                             then the loop goes on with the NEXT candidate                            = [CandidateFail c a false]
-    src/pool.rs:866         health check: [server.stats().tested()]                                 = [TestServer]
-    src/pool.rs:905-909     failed health check: [mark_bad], [ban(FailedHealthCheck)]                = [CandidateFail c a true]
-    src/pool.rs:826-831,840-845, src/client.rs:1149  checkout success: client Active, server Active = [CheckoutOk]
-    src/pool.rs:852, src/client.rs:1088  no candidate left: [checkout_error()], [self.stats.idle()] = [CheckoutGiveUp]
-    src/client.rs:2033-2037 [client_stats.query()], [server.stats().query(..)] after each request cycle
+    src/pool.rs:875         health check: [server.stats().tested()]                                 = [TestServer]
+    src/pool.rs:914-918     failed health check: [mark_bad], [ban(FailedHealthCheck)]                = [CandidateFail c a true]
+    src/pool.rs:835-840,849-854, src/client.rs:1172  checkout success: client Active, server Active = [CheckoutOk]
+    src/pool.rs:861, src/client.rs:1103  no candidate left: [checkout_error()], [self.stats.idle()] = [CheckoutGiveUp]
+    src/client.rs:2087-2091 [client_stats.query()], [server.stats().query(..)] after each request cycle
                             ([send_and_receive_loop]: every 'Q', every 'S' that reaches the server)  = [QueryDone]
-    src/client.rs:1285-1290,1545-1549,1596-1600  [!server.in_transaction()] after a cycle:
+    src/client.rs:1308-1313,1572-1577,1648-1653  [!server.in_transaction()] after a cycle:
                             [self.stats.transaction()], [server.stats().transaction(..)]             = [TxnDone]
-    src/server.rs:883,1111  [data_sent(len)] in [send], [data_received(len)] in [recv] (also for the pooler's own
+    src/server.rs:883,1114  [data_sent(len)] in [send], [data_received(len)] in [recv] (also for the pooler's own
                             traffic: health check, ROLLBACK, RESET, parameter sync)                 = [Data]
-    src/client.rs:1621-1627 end of the transaction loop: [checkin_cleanup], [server.stats().idle()],
+    src/client.rs:1672-1681 end of the transaction loop: [checkin_cleanup], [server.stats().idle()],
                             [self.stats.idle()]                                                      = [Release]
-    src/client.rs:911,926,1131,1305  [self.stats.disconnect()] then [return Ok(())]                  = [ExitOk]
-    src/client.rs:275-277   [if result.is_err() { client.stats.disconnect(); }] (also 1193)          = [ExitErr c srvfail]
+    src/client.rs:926,941,1146,1328  [self.stats.disconnect()] then [return Ok(())]                  = [ExitOk]
+    src/client.rs:290-292   [if result.is_err() { client.stats.disconnect(); }] (also 181-183, 233-235, 319-321; 1216)          = [ExitErr c srvfail]
                             [srvfail]: the error came from the server side ([pool.ban(.., Some(client_stats))] in
                             send_server_message / receive_server_message: replica => [address.stats.error()])
     (no line)               a panic inside [handle()] unwinds through [client_entrypoint]: neither
                             [disconnect()] runs; tokio drops the task's future                      = [ExitPanic]
-    src/client.rs:2104-2114 [Drop for Client] (runs on every exit, panic included): if [connected_to_server],
+    src/client.rs:2158-2173 [Drop for Client] (runs on every exit, panic included): if [connected_to_server],
                             the last server's stats are set Idle
-    src/pool.rs:1194-1199   [ServerPool::connect]: [ServerStats::new], [register] (=> Login)          = [ServerConnect]
-    src/pool.rs:1228        startup done: [stats.idle()]                                             = [ServerReady]
-    src/pool.rs:1232, src/server.rs:1540-1548  startup failed / [Drop for Server]: [stats.disconnect()] = [ServerDrop]
+    src/pool.rs:1203-1208   [ServerPool::connect]: [ServerStats::new], [register] (=> Login)          = [ServerConnect]
+    src/pool.rs:1237        startup done: [stats.idle()]                                             = [ServerReady]
+    src/pool.rs:1241, src/server.rs:1547-1555  startup failed / [Drop for Server]: [stats.disconnect()] = [ServerDrop]
 
     Granularity: one op = one of the call-site groups above, executed atomically.  This is the message
     granularity of DESIGN.md §3: the registries are behind an RwLock, every row field is an atomic, a
@@ -57,7 +57,7 @@
     where it blocks on a client socket, on bb8 or on a server — the quiescent points of the property.
 
     Identifiers: clients and server connections are named by natural numbers; the model requires a FRESH
-    id for [Login] and [ServerConnect].  The code draws a random i32 ([rand::random()], client.rs:483,
+    id for [Login] and [ServerConnect].  The code draws a random i32 ([rand::random()], client.rs:497,
     stats/server.rs:89); a collision (probability 2^-32 per pair) makes [client_register] ignore the second
     client and is assumed away (trusted base).
 
@@ -176,7 +176,7 @@ Definition a_add (x : atot) (dx dq ds dr de : nat) : atot :=
 Definition b2n (b : bool) : nat := if b then 1 else 0.
 
 (** The task of client [c] ends ([Drop for Client] runs in all three cases): it leaves [handle()],
-    gives up its server, whose stats are set Idle (client.rs:2111-2113).  [unreg]: whether
+    gives up its server, whose stats are set Idle (client.rs:2169-2171).  [unreg]: whether
     [stats.disconnect()] ran. *)
 Definition exit_client (t : st) (c : nat) (unreg : bool) (aerr : nat) : st :=
   let x := cl t c in
@@ -343,7 +343,7 @@ Definition is_panic (o : op) : bool := match o with ExitPanic _ => true | _ => f
 Definition known_c18 (ops : list op) : bool := existsb is_panic ops.
 
 (** A candidate failure that resets the client's state to Idle although the checkout goes on with the
-    next candidate (pool.rs:808 / ban_error): until the checkout ends the client is shown idle. *)
+    next candidate (pool.rs:817 / ban_error): until the checkout ends the client is shown idle. *)
 Definition is_stale_fail (cf : cfg) (o : op) : bool :=
   match o with CandidateFail _ a hc => negb (hc && negb (areplica cf a)) | _ => false end.
 Definition known_c18_wait (cf : cfg) (ops : list op) : bool := existsb (is_stale_fail cf) ops.
